@@ -84,6 +84,9 @@ def _run(sim, case, r):
     latency = min(case.get('latency_ms', 0), timeout_ms // 2) / 1000     # every response takes this long (well within the timeout)
 
     def respond(w):
+        if case.get('lp') and net.outer_type(w) == 6:
+            # the forwarder attaches a link-layer header (CongestionMark): the Data arrives inside an LpPacket
+            w = net.lp_wrap(w, extra=[(0x0340, b'\x01')])
         if latency:
             loop.call_later(latency, lambda: loop.create_task(sim.app.face.callback(net.outer_type(w), w)))
         else:
@@ -98,6 +101,13 @@ def _run(sim, case, r):
             fb = T.enc_tlv({'seq': 58, 'off': 52, 'ver': 54, 'gen': 8}[kind], T.enc_nni(i))
         return net.data_wire(base + [seg(i)], content=content_of(i), final_block=fb, freshness=1000)
 
+    if case.get('ask_full') and (N == 0 or case.get('ask_segment') is not None):
+        # the application passes a FULL name (ending with the implicit digest of the packet, e.g. taken from a manifest)
+        import hashlib
+        target = net.data_wire(base, content=whole, freshness=1000) if N == 0 else data_for(case['disc_k'] % N)
+        ask = (list(base) if N == 0 else ask) + [T.enc_tlv(1, hashlib.sha256(target).digest())]
+    nonces = set()
+
     def send(data):
         orig_send(data)
         w = bytes(data)
@@ -105,6 +115,10 @@ def _run(sim, case, r):
             return
         si = P.strict_interest(w)
         name = si['name']
+        if (tuple(name), si['nonce']) in nonces:
+            # what a forwarder's loop detection sees as a duplicate is not a new request for the segment
+            r.bad('C19/retransmission-reuses-nonce', f'Interest {len(seen)} repeats the Nonce {si["nonce"]} of an earlier Interest for the same name')
+        nonces.add((tuple(name), si['nonce']))
         if name == ask and si['can_be_prefix']:
             row = 'd'
         elif name[:-1] == base and name[-1][:1] == b'\x32':
@@ -296,6 +310,7 @@ def _case(draw):
             'version': draw(st.one_of(st.none(), st.sampled_from([0, 1, 255, 256, 2 ** 32]))), 'loss': loss, 'fault': fault,
             'twin': draw(st.sampled_from([None, None, 0, 1, 40, 60])),
             'empty_seg': draw(st.sampled_from([None, None, None, 0, 1, 2, 6])),
+            'lp': draw(st.sampled_from([False, False, True])), 'ask_full': draw(st.sampled_from([False, False, True])),
             'name_form': draw(st.integers(0, 4)), 'validator_via': draw(st.sampled_from(['arg', 'arg', 'app'])),
             'timeout': draw(st.sampled_from([100, 100, 4000, 1000, 50])), 'latency_ms': draw(st.sampled_from([0, 0, 20, 150, 400]))}
 
